@@ -238,27 +238,27 @@ macro_rules! binop {
         }
     };
 }
-binop!(c14_t_xls_binop_add, 0x03, b"+");
-binop!(c14_t_xls_binop_sub, 0x04, b"-");
-binop!(c14_t_xls_binop_le, 0x0A, b"<=");
-binop!(c14_t_xls_binop_ne, 0x0E, b"<>");
-binop!(c14_t_xls_binop_mul, 0x05, b"*");
-binop!(c14_t_xls_binop_div, 0x06, b"/");
-binop!(c14_t_xls_binop_pow, 0x07, b"^");
-binop!(c14_t_xls_binop_concat, 0x08, b"&");
-binop!(c14_t_xls_binop_lt, 0x09, b"<");
-binop!(c14_t_xls_binop_eq, 0x0B, b"=");
-binop!(c14_t_xls_binop_gt, 0x0C, b">");
-binop!(c14_t_xls_binop_ge, 0x0D, b">=");
-binop!(c14_t_xls_binop_isect, 0x0F, b" ");
-binop!(c14_t_xls_binop_union, 0x10, b",");
-binop!(c14_t_xls_binop_range, 0x11, b":");
+binop!(c14_x_xls_binop_add, 0x03, b"+");
+binop!(c14_x_xls_binop_sub, 0x04, b"-");
+binop!(c14_x_xls_binop_le, 0x0A, b"<=");
+binop!(c14_x_xls_binop_ne, 0x0E, b"<>");
+binop!(c14_x_xls_binop_mul, 0x05, b"*");
+binop!(c14_x_xls_binop_div, 0x06, b"/");
+binop!(c14_x_xls_binop_pow, 0x07, b"^");
+binop!(c14_x_xls_binop_concat, 0x08, b"&");
+binop!(c14_x_xls_binop_lt, 0x09, b"<");
+binop!(c14_x_xls_binop_eq, 0x0B, b"=");
+binop!(c14_x_xls_binop_gt, 0x0C, b">");
+binop!(c14_x_xls_binop_ge, 0x0D, b">=");
+binop!(c14_x_xls_binop_isect, 0x0F, b" ");
+binop!(c14_x_xls_binop_union, 0x10, b",");
+binop!(c14_x_xls_binop_range, 0x11, b":");
 
 /// Unary minus / plus / percent / parentheses around a reference, then "+B1": "(-A1)+B1" exercises the operand stack.
 #[kani::proof]
 #[kani::unwind(16)]
 #[kani::stub(crate::utils::push_column, crate::k_kcommon::model_push_column_l1)]
-fn c14_t_xls_unary_paren() {
+fn c14_x_xls_unary_paren() {
     let c1: u16 = kani::any();
     let c2: u16 = kani::any();
     kani::assume(c1 < 26 && c2 < 26);
@@ -386,13 +386,13 @@ fn func_fixed_case<const IFTAB: u16>(name: &[u8]) {
 #[kani::proof]
 #[kani::unwind(16)]
 #[kani::stub(crate::utils::push_column, crate::k_kcommon::model_push_column_l1)]
-fn c14_t_xls_func_sin() {
+fn c14_x_xls_func_sin() {
     func_fixed_case::<15>(b"SIN")
 }
 #[kani::proof]
 #[kani::unwind(16)]
 #[kani::stub(crate::utils::push_column, crate::k_kcommon::model_push_column_l1)]
-fn c14_t_xls_func_isna() {
+fn c14_x_xls_func_isna() {
     func_fixed_case::<2>(b"ISNA")
 }
 
@@ -421,13 +421,13 @@ fn func_var_case<const IFTAB: u16, const PTG: u8>(name: &[u8]) {
 #[kani::proof]
 #[kani::unwind(20)]
 #[kani::stub(crate::utils::push_column, crate::k_kcommon::model_push_column_l1)]
-fn c14_t_xls_funcvar_sum2() {
+fn c14_x_xls_funcvar_sum2() {
     func_var_case::<4, 0x22>(b"SUM")
 }
 #[kani::proof]
 #[kani::unwind(20)]
 #[kani::stub(crate::utils::push_column, crate::k_kcommon::model_push_column_l1)]
-fn c14_t_xls_funcvar_count2() {
+fn c14_x_xls_funcvar_count2() {
     func_var_case::<0, 0x42>(b"COUNT")
 }
 
